@@ -112,6 +112,11 @@ Theorem C20_variance_nonneg ddof l : (inject_Z ddof < qlen l)%Q -> (0 <= var_two
 Proof. exact (two_pass_nonneg ddof l). Qed.
 Print Assumptions C20_variance_nonneg.
 
+Theorem C20_two_pass_around_a_rounded_mean c l : l <> [] ->
+  (qsum (map (fun x => qsq (x - c)) l) == qsum (map (fun x => qsq (x - qmean l)) l) + qlen l * qsq (c - qmean l))%Q.
+Proof. exact (two_pass_centre c l). Qed.
+Print Assumptions C20_two_pass_around_a_rounded_mean.
+
 (* Tie B: nanmean / nanvar / nanstd (and mean_from_sum_count) read, statement by statement, as the model assumes *)
 Theorem C20_moments_are_the_source's : Gen.TablesGen.gen_moment_formulas = moment_formulas.
 Proof. exact tie_moment_formulas. Qed.
